@@ -175,7 +175,7 @@ func c15BaseUnits(ctx *core.Ctx) []core.Unit {
 					in := fmt.Sprintf("x=mont%x y=mont%x", a.e[:], b.e[:])
 					r.Evals += 9
 					r.Nontrivial += 9
-					var z fr.Element
+					z := dirtyFr()
 					z.Add(&a.e, &b.e)
 					chk(r, "Add", in, z, modr(t.Add(a.reg, b.reg)))
 					z.Sub(&a.e, &b.e)
@@ -229,7 +229,7 @@ func c15BaseUnits(ctx *core.Ctx) []core.Unit {
 				in := fmt.Sprintf("x=mont%x y=mont%x", a.e[:], b.e[:])
 				r.Evals++
 				r.Nontrivial++
-				var z fr.Element
+				z := dirtyFr()
 				z.Div(&a.e, &b.e)
 				want := new(big.Int)
 				if b.reg.Sign() != 0 {
@@ -256,7 +256,7 @@ func c15BaseUnits(ctx *core.Ctx) []core.Unit {
 			r.Evals += 20
 			r.Nontrivial += 20
 			t := new(big.Int)
-			var z fr.Element
+			z := dirtyFr()
 			z.Neg(&a.e)
 			chk(r, "Neg", in, z, modr(t.Neg(a.reg)))
 			fr.VerifNegGeneric(&z, &a.e)
@@ -331,7 +331,7 @@ func c15BaseUnits(ctx *core.Ctx) []core.Unit {
 			if got := a.e.Legendre(); got != jac {
 				vio(r, "c15.value", "fr.Element.Legendre", in, fmt.Sprint(jac), fmt.Sprint(got))
 			}
-			var root fr.Element
+			root := dirtyFr()
 			res := root.Sqrt(&a.e)
 			if (res == nil) != (jac == -1) {
 				vio(r, "c15.value", "fr.Element.Sqrt", in, fmt.Sprintf("nil=%v", jac == -1), fmt.Sprintf("nil=%v", res == nil))
